@@ -124,6 +124,46 @@ where
     }
 }
 
+/// Const cut point (deep, heap-building types; header parsing): K bytes of the stream survive.
+pub fn trunc_full_k<C: Case, const N: usize, const S: usize, const K: usize>() {
+    let x = C::make(S);
+    let (s, n) = ser_inner::<C, N, S>(&x);
+    if K >= n { return; }
+    let mut rd = Exact::new(&s.buf[..K]);
+    let mut rp = ReaderWithPos::new(&mut rd);
+    let r = <C::T>::_deserialize_full_inner(&mut rp);
+    match r {
+        Ok(v) => { core::mem::forget(v); assert!(false, "C11: a strict prefix was deserialized into a value (full-copy)"); }
+        Err(DE::ReadError) => {}
+        Err(e) => { core::mem::forget(e); assert!(false, "C11: full-copy of a truncated stream returns a read error"); }
+    }
+}
+pub fn trunc_header_k<C: Case, const EPS: bool, const K: usize>()
+where
+    C::T: Serialize + Deserialize,
+{
+    let x = C::make(0);
+    let mut s = Sink::<64>::new();
+    let n = match x.serialize(&mut s) { Ok(n) => n, Err(_) => { assert!(false, "HARNESS: serializes"); 0 } };
+    if K >= n { return; }
+    let mut al = Al::<64>::zero();
+    al.0 = s.buf;
+    if EPS {
+        let r = <C::T>::deserialize_eps(&al.0[..K]);
+        let ok = r.is_ok();
+        core::mem::forget(r);
+        assert!(!ok, "C11: a truncated file was deserialized into a value (eps)");
+    } else {
+        let mut rd = Exact::new(&al.0[..K]);
+        let r = <C::T>::deserialize_full(&mut rd);
+        match r {
+            Ok(v) => { core::mem::forget(v); assert!(false, "C11: a truncated file was deserialized into a value (full-copy)"); }
+            Err(DE::ReadError) => {}
+            Err(e) => { core::mem::forget(e); assert!(false, "C11: full-copy of a truncated file returns a read error"); }
+        }
+    }
+}
+
 macro_rules! tr {
     ($($name:ident = $f:ident :: <$($g:tt),*> @ $unw:literal);* $(;)?) => {$(
         #[cfg_attr(kani, kani::proof)] #[cfg_attr(kani, kani::unwind($unw))]
@@ -137,10 +177,7 @@ tr!(
     c11_full_vecu32 = trunc_full::<VecU32, 32, 0> @ 6;
     c11_full_vecu128 = trunc_full::<VecU128, 64, 0> @ 18;
     c11_full_str = trunc_full::<Str, 32, 6> @ 10;
-    c11_full_vecvec = trunc_full::<VecVecU16, 48, 5> @ 5;
-    c11_full_vecstring = trunc_full::<VecString, 48, 5> @ 8;
     c11_full_arru32x3 = trunc_full::<ArrU32x3, 16, 0> @ 5;
-    c11_full_arrstring = trunc_full::<ArrStringx2, 48, 2> @ 8;
     c11_full_tup3 = trunc_full::<Tup3, 32, 0> @ 10;
     c11_full_rangeincl = trunc_full::<RangeInclU32, 16, 0> @ 4;
     c11_full_boundu32 = trunc_full::<BoundU32, 16, 0> @ 4;
@@ -187,13 +224,9 @@ tr!(
     c11_exact_arru32x3_k11 = trunc_eps_exact::<ArrU32x3, 16, 0, 11> @ 14;
     c11_exact_tup3_k23 = trunc_eps_exact::<Tup3, 32, 0, 23> @ 26;
     c11_exact_deeps_k11 = trunc_eps_exact::<DeepSVec, 32, 0, 11> @ 14;
-    c11_hdr_u32_full = trunc_header::<U32, false> @ 45;
-    c11_hdr_u32_eps = trunc_header::<U32, true> @ 45;
-    c11_hdr_tup2_full = trunc_header::<Tup2, false> @ 50;
-    c11_hdr_tup2_eps = trunc_header::<Tup2, true> @ 50;
-    c11_hdr_optu8_full = trunc_header::<OptU8, false> @ 64;
-    c11_hdr_optu8_eps = trunc_header::<OptU8, true> @ 64;
 );
+
+include!("c11_cuts.rs");
 
 /// Reachability twin: the complete stream IS deserialized.
 #[cfg_attr(kani, kani::proof)] #[cfg_attr(kani, kani::unwind(6))]
